@@ -14,7 +14,7 @@ import (
 // network loses nothing and the injected damage is answered at once by an alert, so no case
 // depends on a retransmission; the timer is long so that a loaded machine never triggers a
 // spurious retransmission (retransmitted flights are C19's subject, findings F11/K1).
-var DTLCPTimeout = 3 * time.Second
+var DTLCPTimeout = 6 * time.Second
 
 // dtlcpHasCCS reports whether a datagram (whole DTLCP records, 13-byte headers) contains a
 // ChangeCipherSpec record.
